@@ -297,7 +297,7 @@ def lib_key(s):
     if name in ("windows", "chunks", "chunks_exact", "rchunks") and s.get("const_arg1") not in (None, 0):
         return None           # window / chunk size is a non-zero constant
     tc = norm_key(type_class(s.get("ty") or ""))
-    if callee in ("std::option::Option::<T>::unwrap", "std::option::Option::<T>::expect") and (s.get("origin") or "").startswith("std::iter::Iterator::next<"):
+    if callee in ("std::option::Option::<T>::unwrap", "std::option::Option::<T>::expect") and _re.match(r"^(std::iter::Iterator::next|std::iter::DoubleEndedIterator::next_back|core::slice::<impl \[T\]>::(first|first_mut|last|last_mut)|smallvec::SmallVec::<A>::(first|last)|std::vec::Vec::<T>::(first|last))<", s.get("origin") or ""):
         # `it.next().unwrap()`: first element of a sequence that is non-empty by construction - one class whatever the element type
         return "call|std::option::Option::<T>::unwrap|<-next"
     if name in ("index", "index_mut") and callee.startswith("std::ops::Index"):
